@@ -331,6 +331,11 @@ pub fn gen_cmd_world(rng: &mut Rng, first_party_in_registry: bool) -> CmdWorld {
                 }
             }
         }
+        if rng.chance(1, 3) {
+            // records about a crate that is not in the graph at all
+            let kind = if rng.chance(1, 2) { AuditKind::Violation { violation: VersionReq::parse("*").unwrap() } } else { AuditKind::Full { version: VetVersion::parse("1.0.0").unwrap() } };
+            f.audits.insert("zulu-outside".into(), vec![AuditEntry { who: vec![], criteria: vec![gen::sp(SAFE_TO_RUN.to_owned())], kind, importable: true, notes: None, aggregated_from: vec![], is_fresh_import: false }]);
+        }
         let url = peer_url(i);
         remote.peers.insert(url.clone(), f);
         let mut cmap = CriteriaMap::new();
